@@ -2,12 +2,31 @@ package cachesim
 
 import (
 	"fmt"
+	"strings"
 
 	"verif/harness/sim"
 )
 
 // Gen generates a sequential block-tree script (C06, C07).
 func Gen(prop string, r *sim.Rand, tier string) sim.Script {
+	sc := gen0(prop, r, tier)
+	// options added later are drawn last
+	if s, ok := sc.(*Script); ok && len(s.Ops) < 4000 && r.Chance(1, 8) {
+		// names that are ambiguous when concatenated: keys k, kq, kqq and block hashes z0, qz0, qqz0, qqqz0, z1, ...
+		// ("k"+"qz0" == "kq"+"z0"): keys and block hashes are free-form strings
+		s.Names = "ambig"
+		for i := range s.Ops {
+			if y := s.Ops[i].Y; len(y) > 1 && y[0] == 'k' {
+				n := 0
+				fmt.Sscanf(y[1:], "%d", &n)
+				s.Ops[i].Y = "k" + strings.Repeat("q", n%3)
+			}
+		}
+	}
+	return sc
+}
+
+func gen0(prop string, r *sim.Rand, tier string) sim.Script {
 	s := &Script{Prop: prop, Values: "bytes"}
 	if prop == "C07" && r.Chance(1, 2) {
 		s.Values = "nodes"
